@@ -173,6 +173,14 @@ def _e2e(case, ctx):
         rows, cols = int(rng.integers(7, 12)), int(rng.integers(10, 16))
         keys, params, info = pipes.random_pipeline(rng, rows, cols, max_post=2 + case["i"] % 2, allow_mfi=False, validation=True,
                                                    filling=["sgm", "mc-cnn"][(case["part"] + case["i"]) % 2])
+    elif case["i"] in (4, 5):
+        # directed constructor: a filter before the refinement (the refined sample is then rarely the best of its triple),
+        # similarity and dissimilarity measures, both refinement methods
+        keys = ["matching_cost", "disparity", "filter", "refinement"]
+        params = {"matching_cost": {"matching_cost_method": ["zncc", "sad"][(case["part"] + case["i"]) % 2], "window_size": 3, "subpix": 1},
+                  "disparity": {"disparity_method": "wta", "invalid_disparity": -9999},
+                  "filter": {"filter_method": "median", "filter_size": 3},
+                  "refinement": {"refinement_method": ["vfit", "quadratic"][case["part"] % 2]}}
     else:
         keys, params, info = pipes.random_pipeline(rng, rows, cols, max_post=4, allow_mfi=False, repeat_bias=0.2)
     l, r = gen.stereo_pair(rng, rows, cols, gen.TEXTURES[int(rng.integers(0, 5))], max_shift=3)
